@@ -223,6 +223,7 @@ macro_rules! int_harness {
     ($name:ident, $fmt:expr, $which:expr) => {
         #[kani::proof]
         #[kani::unwind(26)]
+        #[kani::stub(crate::MapType::new, crate::verif_common::stub_map_type_new)]
         fn $name() {
             check_integer($fmt, $which)
         }
@@ -258,6 +259,7 @@ int_harness!(c10_int_t_uint64, Some("uint64"), 0b111111);
 /// harness pipeline that cannot fail is noticed.
 #[kani::proof]
 #[kani::unwind(26)]
+#[kani::stub(crate::MapType::new, crate::verif_common::stub_map_type_new)]
 fn canary_c10_integer() {
     let ts = empty_type_space();
     let fmt = Some("uint8".to_string());
